@@ -1,0 +1,42 @@
+//! Verification hooks. Only compiled with the `verif` cargo feature.
+//!
+//! * step counters: a logical, load-independent cost measure for the recursive walks.
+//! * failpoints: optional sleeps at existing suspension points, driven by environment variables.
+use std::cell::Cell;
+
+#[derive(Debug, Clone, Copy, PartialEq, Eq)]
+pub enum Site {
+    UpdateStages = 0,
+    UpdateStagesBlocks = 1,
+    AddTypesRecursive = 2,
+}
+
+thread_local! {
+    static STEPS: [Cell<u64>; 3] = const { [Cell::new(0), Cell::new(0), Cell::new(0)] };
+}
+
+/// Count one step at `site` for the calling thread.
+pub fn step(site: Site) {
+    STEPS.with(|s| {
+        let c = &s[site as usize];
+        c.set(c.get().wrapping_add(1));
+    });
+}
+
+/// Reset the calling thread's counters.
+pub fn reset() {
+    STEPS.with(|s| s.iter().for_each(|c| c.set(0)));
+}
+
+/// The calling thread's counters: `[update_stages, update_stages_blocks, add_types_recursive]`.
+pub fn steps() -> [u64; 3] {
+    STEPS.with(|s| [s[0].get(), s[1].get(), s[2].get()])
+}
+
+/// Sleep for `VERIF_FP_<NAME>_MS` milliseconds if that variable is set.
+pub fn failpoint(name: &str) {
+    let var = format!("VERIF_FP_{}_MS", name.to_uppercase());
+    if let Some(ms) = std::env::var(var).ok().and_then(|v| v.parse::<u64>().ok()) {
+        std::thread::sleep(std::time::Duration::from_millis(ms));
+    }
+}
